@@ -48,7 +48,7 @@ C = {
    "Peak heap (the allocation count is recorded as evidence) of stream/range/search/set-ops (k up to 8) - including operations whose single next() call has to skip ~N candidates (disjoint intersections, cancelling differences, Set relations) and operations whose k inputs are collected from a filter over 4,000,000 candidates - are independent of N in {10^4,10^5,10^6(,10^7)} and under a fixed small constant; open-over-borrowed/mmap + 10^5 lookups allocate exactly 0 times, also on a 69 MB FST; {:?} formatting of a Map/Set is measured as an enumeration.",
    "Bounded restatement; constants fixed a priori.", "DESIGN.md#c14"),
  "C15": (True, "exploration", "differential monitor: byte equality across API paths, sinks, repeated runs, 16 concurrent threads and child processes",
-   "Each sequence is built through up to 25 paths (all front ends, unions of partial FSTs streamed into a builder, sinks) and must be byte-identical; cross-thread and cross-process digests incl. tiny cache geometries where evictions occur; sequences include hundreds of distinct wide nodes recurring after cache-flushing filler and solved cache-digest collisions.",
+   "Each sequence is built through up to 25 paths (all front ends, unions of partial FSTs streamed into a builder, sinks) and must be byte-identical; cross-thread and cross-process digests incl. tiny cache geometries where evictions occur; sequences are rebuilt after an unrelated builder with more than a million keys; sequences include hundreds of distinct wide nodes recurring after cache-flushing filler and solved cache-digest collisions.",
    "Determinism is judged per cache geometry.", "DESIGN.md#c15"),
  "C16": (True, "exploration", "reference-model monitor: inverse map oracle over exhaustive small monotone maps",
    "All subsets of {a,b}^<=3 x 6 strictly increasing value shapes (with/without the empty key, zero/non-zero first value), corpora and random monotone maps; every stored value, +-1, extremes and random values through get_key and get_key_into (prefix-preserving); maps also come from builders that were offered repeated and rejected keys in between.",
@@ -57,10 +57,10 @@ C = {
    "All q in A^<=3 x d<=2 x all k in A^<=3 over an alphabet with 1-4 byte scalars sharing 1/2/3 lead bytes (1.03M triples), Set::search per (q,d), random wide-Unicode strings, five further exhaustive alphabets (encoding-length boundaries, scalars differing only in the lead byte), distances 200..600 through new_with_limit, every query length 1..40 (+47,48,63,64,65) x distances 1..6, one automaton with > 65536 states, and new_with_limit series (payload, monotonicity, behaviour, number of distinct reachable states counted through the public interface).",
    "Keys are valid UTF-8.", "DESIGN.md#c17"),
  "C18": (True, "exploration", "reference language algebra: textbook-constructed reference DFA with exact reachability sets vs the real combinators driven byte by byte",
-   "~67k expressions (all leaves incl. every <=2-state component DFA with every sound hint assignment, unary/binary/depth-2/3 compositions) x all short strings + a representative of every reference state: is_match == membership, can_match false only in dead states, will_always_match true only in all-accepting states; patterns with byte order marks, zero-width characters, blanks, NUL, CR LF, decomposed letters; patterns of 31..257 bytes driven by two-point perturbations and guided walks; automata built over one re-used query buffer.",
+   "~67k expressions (all leaves incl. every <=2-state component DFA with every sound hint assignment, unary/binary/depth-2/3 compositions) x all short strings + a representative of every reference state: is_match == membership, can_match false only in dead states, will_always_match true only in all-accepting states; patterns with byte order marks, zero-width characters, blanks, NUL, CR LF, decomposed letters; patterns of 31..257 and of 65535..131073 bytes driven by two-point perturbations and guided walks; automata built over one re-used query buffer.",
    "Component hints are sound by construction (the statement's premise); a brute-force third definition cross-checks the oracle.", "DESIGN.md#c18"),
  "C19": (True, "exploration", "subprocess monitor of the real fst binary with seeded delay injection (hook H4), offline merge-tree trace checker, model-merge oracle; ThreadSanitizer and valgrind memcheck runs (thorough)",
-   "Hundreds (thorough: thousands) of runs of `fst set|map` over 21 input shapes x batch sizes x fd limits x thread counts x merge modes under seeded delays; exit status, verify(), keys, merged values and byte identity with a sorted build (library build and the command line's own --sorted --force build, also over a longer existing file) are judged; a third of the runs keep the scratch directory on another file system; inputs include CRLF (also 160 KB files whose line endings straddle every multiple of 4096 bytes), missing final newlines, empty files, BOM-prefixed and NUL-suffixed keys, 6000 batches in one phase; the hooked trace yields the merge tree, and the evidence reports how many distinct trees / worker assignments were observed (213 quick, ~2000 thorough); thorough adds 200 TSan and 30 memcheck runs.",
+   "Hundreds (thorough: thousands) of runs of `fst set|map` over 21 input shapes (plus ~100 inputs whose batch count lies around a power of the fan-in) x batch sizes x fd limits x thread counts x merge modes under seeded delays; exit status, verify(), keys, merged values and byte identity with a sorted build (library build and the command line's own --sorted --force build, also over a longer existing file) are judged; a third of the runs keep the scratch directory on another file system; some runs use the tool's own defaults, also confined to one cpu; inputs include CRLF (also 160 KB files whose line endings straddle every multiple of 4096 bytes), missing final newlines, empty files, BOM-prefixed and NUL-suffixed keys, 6000 batches in one phase; the hooked trace yields the merge tree, and the evidence reports how many distinct trees / worker assignments were observed (213 quick, ~2000 thorough); thorough adds 200 TSan and 30 memcheck runs.",
    "Interleavings are sampled, not enumerated; keys need no CSV quoting; a subprocess watchdog is inconclusive.", "DESIGN.md#c19"),
  "C20": (True, "exploration", "catch_unwind totality monitor in a release and an overflow-checked build + Miri (undefined-behaviour interpreter) over 16 shards; auxiliary non-runtime forbid(unsafe_code) compile gate",
    "1.3M (thorough 20M) hostile images (boundary header/footer sweep, random strings, truncations/mutations/extensions of valid FSTs) through open + accessors + verify in two build profiles; Miri interprets the same gate plus bounded traversals of mutated FSTs (panic allowed, UB not) and miniature valid-input operations; the command line gate `fst verify` must end with a verdict (exit 0/1) on several hundred hostile files.",
